@@ -36,4 +36,5 @@ def run(tier, seed):
                        "clip_by_plane (five grid points in order, consulted iff the filter says 0, vertex removed iff the deciding sign is negative, on-sphere ties keep the vertex); "
                        "right_loc of a wall is the mirror image of the generator.",
     }
+    meta["assumptions"] = list(meta["assumptions"]) + kani.scan_assumptions()
     return results, meta
